@@ -61,3 +61,69 @@ Proof. intros D. now rewrite !project_conserves, wrap_into_list_content. Qed.
 Theorem unwrap_list_blocks parent id t : unwrap_dom id t = true ->
   flat_map gcontent (project parent (unwrap_list id t)) = flat_map gcontent (project parent t).
 Proof. intros D. now rewrite !project_conserves, unwrap_list_content. Qed.
+
+(* ---------- C09: keys ------------------------------------------------------------------------ *)
+
+Definition created (l : list change) : list string :=
+  flat_map (fun c => match c with Create k => [k] | _ => [] end) l.
+
+Section Fresh.
+  (* the draw that leaves the loop of Graph::random_key (graph.rs:516): not among the keys *)
+  Variable fresh : list string -> string.
+  Hypothesis fresh_spec : forall ks, ~ In (fresh ks) ks.
+
+  Theorem extract_key_fresh cx target ks rest l :
+    changes cx SectionExtract (KRand (fresh ks :: rest)) target = Ok (Some l) ->
+    created l = [fresh ks] /\ ~ In (fresh ks) ks.
+  Proof.
+    intros H. split; [|apply fresh_spec]. unfold changes in H.
+    destruct (cx_key_of cx target) as [key|]; [|discriminate]. cbn [bind] in H.
+    unfold ctx_collect in H. destruct (cx_collect cx key) as [tree|]; [|discriminate]. cbn [bind] in H.
+    destruct (get_surrounding_section_id target tree); [|discriminate].
+    destruct (tree_is_header target tree); [|discriminate].
+    cbn [random_key bind fst] in H.
+    destruct (extract_rec target n (fresh ks) tree); [|discriminate]. cbn [bind] in H.
+    destruct (tget tree target); [|discriminate]. cbn [bind] in H.
+    inversion H. reflexivity.
+  Qed.
+End Fresh.
+
+(* sequential-key mode (in-memory state): every sub-section gets the same key, and the key is
+   `number of notes + 1` whatever the notes are called *)
+Definition cx1 : actx :=
+  ACtx (fun _ => Ok "a")
+       (fun _ => Ok (doc 0 [sec 1 "a" [sec 2 "b" [leaf 3 "one"]; sec 4 "c" [leaf 5 "two"]]]))
+       1.
+
+Lemma subsections_seq_reuse :
+  exists k s1 s2 rest,
+    changes cx1 SubSectionsExtract KSeq 1 = Ok (Some (Create k :: Update k "" s1 :: Create k :: Update k "" s2 :: rest))
+    /\ s1 <> s2.
+Proof.
+  eexists _, _, _, _. split; [vm_compute; reflexivity|]. discriminate.
+Qed.
+
+Lemma seq_key_ignores_names : forall cx parent, random_key cx KSeq parent = Ok (from_rel_link_url (dec (cx_nkeys cx + 1)) parent, KSeq).
+Proof. reflexivity. Qed.
+
+(* ---------- C09: the recursion of append_pre_header as found ----------------------------------- *)
+
+Lemma append_pre_header_as_found_diverges :
+  forall fuel, exists s, append_pre_header_as_found fuel 1 (sec 1 "s" []) (sec 1 "s" []) = Panic s.
+Proof.
+  induction fuel as [|f [s IH]]; [eexists; reflexivity|].
+  exists s. change (append_pre_header_as_found (S f) 1 (sec 1 "s" []) (sec 1 "s" []))
+    with (do kids <- (do r <- Ok [] ; do x <- append_pre_header_as_found f 1 (sec 1 "s" []) (sec 1 "s" []); Ok (x :: r));
+          Ok (T (Some 1) (NSection [Str "s"]) kids)).
+  cbn [bind]. rewrite IH. reflexivity.
+Qed.
+
+Lemma append_pre_header_self_terminates :
+  append_pre_header 1 (sec 1 "s" []) (sec 1 "s" []) = sec 1 "s" [sec 1 "s" []].
+Proof. reflexivity. Qed.
+
+(* cross-directory inline: the inline link of the inlined note is written as it was, and from the
+   new directory it names another note *)
+Lemma inline_cross_dir_link :
+  let url := "c" in from_rel_link_url url "d" = "d/c" /\ from_rel_link_url url "" = "c".
+Proof. cbv zeta. split; vm_compute; reflexivity. Qed.
